@@ -17,24 +17,25 @@ BS_CONSTS = [
   dict(name='item_count_mask', file=IMPL, regex=r'static constexpr std::uint32_t item_count_mask = ([^;]+);'),
 ]
 
-_BS = dict(file=IMPL, members=['value'],
+_BS = dict(file=IMPL, members=[],
            calls={'bucket_state': 'BS_MK'},
            methods={'item_count': 'BS_item_count', 'delete_marker': 'BS_delete_marker'},
            self_calls={'item_count': 'bs_item_count', 'delete_marker': 'bs_delete_marker'},
            pre_subst=[(r'\bbucket_state (\w+)\(([^;]*)\);', r'bstate_t \1 = BS_MK(\2);', 'ctor_decl')],
-           subst=[(r'\block\b', 'bs_lock', 'lock_const')])
+           subst=[(r'\block\b', 'bs_lock', 'lock_const')],
+           post_subst=[(r'\bself\b', 'value', 'this_value')])   # bucket_state is passed by value: `this` is the word itself
 
 def _bs(id, sig, ret, args='', **kw):
-    d = dict(_BS); d.update(id='bs_' + id, sig=sig, c_sig='static %s bs_%s(const struct bsv* self%s)' % (ret, id, args)); d.update(kw)
+    d = dict(_BS); d.update(id='bs_' + id, sig=sig, c_sig='static %s bs_%s(bstate_t value%s)' % (ret, id, args)); d.update(kw)
     return d
 
 BS_SOURCES = [
   dict(id='find_last_bit_set', file=UTILS, sig=r'constexpr unsigned find_last_bit_set\(T val\)',
        c_sig='static unsigned real_find_last_bit_set(uint64_t val)', must_fire={}),
-  _bs('item_count', r'std::uint32_t item_count\(\) const noexcept', 'uint32_t', must_fire={'member:value': 1}),
-  _bs('delete_marker', r'std::uint32_t delete_marker\(\) const noexcept', 'uint32_t', must_fire={'member:value': 1}),
-  _bs('version', r'std::uint32_t version\(\) const noexcept', 'uint32_t', must_fire={'member:value': 1}),
-  _bs('is_locked', r'bool is_locked\(\) const noexcept', '_Bool', must_fire={'member:value': 1, 'subst:lock_const': 1}),
+  _bs('item_count', r'std::uint32_t item_count\(\) const noexcept', 'uint32_t', must_fire={}),
+  _bs('delete_marker', r'std::uint32_t delete_marker\(\) const noexcept', 'uint32_t', must_fire={}),
+  _bs('version', r'std::uint32_t version\(\) const noexcept', 'uint32_t', must_fire={}),
+  _bs('is_locked', r'bool is_locked\(\) const noexcept', '_Bool', must_fire={'subst:lock_const': 1}),
   _bs('locked', r'bucket_state locked\(\) const noexcept', 'bstate_t', must_fire={'call:bucket_state': 1, 'subst:lock_const': 1}),
   _bs('clear_lock', r'bucket_state clear_lock\(\) const', 'bstate_t', must_fire={'call:bucket_state': 1, 'subst:lock_const': 2}),
   _bs('new_version', r'bucket_state new_version\(\) const noexcept', 'bstate_t', must_fire={'call:bucket_state': 1}),
